@@ -20,7 +20,7 @@ def replay_file(path: str) -> int:
     from sim.zygote import cold_call
 
     data = json.loads(open(path).read())
-    rep = cold_call("sim.c20", "replay_case", data["case"])
+    rep = cold_call("sim.c20", "replay_case", data["case"], hashseed=data.get("hashseed", 12345))
     if rep["violated"]:
         print(f"VIOLATION property={PROP} replay={path}")
         print("  " + jdump({"key": data.get("violation_key"), "outcome": rep["outcome"]})[:1000])
@@ -113,11 +113,11 @@ def run_check(tier: str, seed: int, runs: int | None = None, parallel: int | Non
                     known_lines.append(line)
                 continue
             case = {k: v.get(k) for k in ("date", "cols", "faults", "form", "kind", "variant") if v.get(k) is not None}
-            confirms = [engine.cold("sim.c20", "replay_case", case)["violated"] for _ in range(3)]
+            confirms = [engine.cold("sim.c20", "replay_case", case, hashseed=engine.slots[i % len(engine.slots)].S.hashseed)["violated"] for _ in range(3)]
             if not all(confirms):
                 raise HarnessError(f"C20 violation of run {i} does not replay in cold interpreters: {confirms} {key}")
             tag = f"{i}-{len(viol_lines)}"
-            path = write_replay(PROP, seed, tag, {"case": case, "violation_key": key, "info": v.get("info"), "replay_cmd": f"./check replay replays/{PROP}-{seed}-{tag}.json"})
+            path = write_replay(PROP, seed, tag, {"hashseed": engine.slots[i % len(engine.slots)].S.hashseed, "case": case, "violation_key": key, "info": v.get("info"), "replay_cmd": f"./check replay replays/{PROP}-{seed}-{tag}.json"})
             viol_lines.append(f"VIOLATION property={PROP} replay={path}")
             log(f"  violation: {jdump(key)} faults={jdump(case.get('faults'))[:300]} info={v.get('info')}")
             exit_code = EXIT_VIOLATION
